@@ -25,12 +25,29 @@ def judge_c09(res):
     """after the first run every named target exists, holds the definition at its location and that definition
     describes the truth's interface.  Returns list of failures dict(target, what, facts)."""
     scn = res["scn"]
-    out = _agree(res, res["runs"][0], res["snaps"][1], res["proj"]["gold_ir"], 0, None)
+    out = _truth_read(res, res["proj"]["ir"], res["proj"]["gold_ir"], 0, None)
+    out += _agree(res, res["runs"][0], res["snaps"][1], res["proj"]["gold_ir"], 0, None)
     ed = res.get("edit")
     if ed is not None and ed["gold_ir"] is not None and res["runs"][0]["exception"] is None:
         # the truth was edited after the regular runs: one more sync must make every target agree with the NEW truth
+        out += _truth_read(res, res["proj"]["stale"], ed["gold_ir"], len(res["runs"]), "edit")
         out += _agree(res, ed["run"], ed["after"], ed["gold_ir"], len(res["runs"]), "edit")
     return out
+
+
+def _truth_read(res, written_from, gold, run_index, phase):
+    """the interface sync reads from the truth file is the one the truth definition was written from (parameter names
+    and order, types, prose, defaults): the reference the targets are judged against is not taken on trust from the
+    reader under test"""
+    scn = res["scn"]
+    if gold is None or written_from is None:
+        return []
+    d = iface.same_interface(written_from, gold, check_returns=not scn.get("with_returns"))
+    if not d:
+        return []
+    return [{"target": "*", "what": "the truth is not read as it was written%s: %s" % (
+        " (after the truth was edited)" if phase else "", "; ".join(d[:3])), "facts": facts_of(scn, None, run_index),
+        "kind": "truth-misread", "phase": phase}]
 
 
 def _agree(res, run, snap, gold, run_index, phase):
